@@ -424,16 +424,20 @@ Definition rnode_truthy (g : rnode) : bool :=
   end.
 
 (* _add_child_node; [fx]: [if parent_graph_node is not None] (D37 repaired)
-   instead of [if parent_graph_node] *)
-Definition rdf_node (fx : bool) (pg : option rnode) (n : rt) (index : option nat) : list triple :=
+   instead of [if parent_graph_node];  [std] = false when the node_mapper
+   answered False: the has_child triple is added, the standard attributes are
+   not (and, after the repair, the node's graph node is still returned) *)
+Definition rdf_node (fx std : bool) (pg : option rnode) (n : rt) (index : option nat) : list triple :=
   let g := RLit (rdid n) in
   (match pg with
    | Some p => if fx || rnode_truthy p then [THasChild p g] else []
    | None => []
    end)
-  ++ (match rkind n with Some k => [TKind g k] | None => [] end)
-  ++ [TName g (rname n)]
-  ++ (match index with Some i => [TIndex g i] | None => [] end).
+  ++ (if std
+      then (match rkind n with Some k => [TKind g k] | None => [] end)
+           ++ [TName g (rname n)]
+           ++ (match index with Some i => [TIndex g i] | None => [] end)
+      else []).
 
 Section MapI.
   Context {X Y : Type} (g : nat -> X -> list Y).
@@ -447,23 +451,26 @@ End MapI.
 
 (* _add_child_nodes: the graph node returned for a child is Literal(child.data_id);
    the recursion is entered for every child ([has_children] is a bound method,
-   always truthy) and does nothing for a leaf *)
-Fixpoint rdf_children (fx : bool) (pg : option rnode) (t : rt) : list triple :=
+   always truthy) and does nothing for a leaf.  [sk n]: the node_mapper answers
+   False for n ([fun _ => false] for no mapper / a mapper answering None) *)
+Fixpoint rdf_children (fx : bool) (sk : rt -> bool) (pg : option rnode) (t : rt) : list triple :=
   match t with
   | T _ _ ch =>
-      mapi_cat (fun i c => rdf_node fx pg c (Some i)
-                           ++ rdf_children fx (Some (RLit (rdid c))) c) ch 0
+      mapi_cat (fun i c => rdf_node fx (negb (sk c)) pg c (Some i)
+                           ++ rdf_children fx sk (Some (RLit (rdid c))) c) ch 0
   end.
 
 (* node_to_rdf *)
-Definition rdf_of_node (fx add_self : bool) (s : rt) : list triple :=
+Definition rdf_of_node (fx : bool) (sk : rt -> bool) (add_self : bool) (s : rt) : list triple :=
   if add_self
-  then rdf_node fx None s None ++ rdf_children fx (Some (RLit (rdid s))) s
-  else rdf_children fx None s.
+  then rdf_node fx (negb (sk s)) None s None ++ rdf_children fx sk (Some (RLit (rdid s))) s
+  else rdf_children fx sk None s.
 
-(* tree_to_rdf; [root] is the system root node *)
+Definition no_mapper (_ : rt) : bool := false.
+
+(* tree_to_rdf; [root] is the system root node; Tree.to_rdf_graph passes no mapper *)
 Definition rdf_of_tree (fx : bool) (tname : text) (root : rt) : list triple :=
-  TName RSys tname :: rdf_children fx (Some RSys) root.
+  TName RSys tname :: rdf_children fx no_mapper (Some RSys) root.
 
 (* ------------------------------------------------- canonical rendering *)
 Definition sx_gkey (k : gkey) : sx :=
